@@ -261,11 +261,15 @@ def minimise(job, viol, tier, budget_s):
         out = os.path.join(tmpdir, "final.json")
         json.dump(rp, open(out, "w"), indent=0)
         v = replay_once(job.bin, out)
+        final = os.path.join(REPLAYS, "tmp-min-%d-%d.json" % (os.getpid(), int(time.time() * 1000000) % 100000000))
         if v is not None and v.get("vclass") == vclass:
-            final = os.path.join(REPLAYS, "tmp-min-%d-%d.json" % (os.getpid(), int(time.time() * 1000) % 100000))
             shutil.copy(out, final)
-            return final
-        return best_path
+        else:
+            shutil.copy(best_path, final)     # best_path may live in the temporary directory removed below
+        return final
+    except Exception as e:
+        log("minimisation failed (%s); keeping the original replay file" % e)
+        return path
     finally:
         shutil.rmtree(tmpdir, ignore_errors=True)
 
